@@ -1,3 +1,6 @@
 import LhasaV.Props.C05
 open LhasaV.Props.C05
 #print axioms layout_matches_source
+#print axioms header_roundtrip
+#print axioms header_roundtrip_ok
+#print axioms level1_compressed_size
